@@ -91,6 +91,11 @@ CHECKS = {
             "Statistical decision with two-sided 8-sigma regions (lower bound included: zero or halved noise fails) for every noise level 2^-5..2^-30 and both default key sets; generated re-seeding histories for the randomness-source clause.",
             "Acceptance regions are centred on the sampler law actually implemented (truncation toward zero), computed numerically by the driver; a false alarm has probability < 1e-14 per statistic.",
             "DESIGN.md §3 C07"),
+    "C06": ("exploration", "E1",
+            "rapidcheck over concurrent workloads (1..64 threads, per-thread histories incl. heap churn, respawn, key-generation thread) with a byte-for-byte differential against references computed by fresh single-operation threads; ThreadSanitizer build of the same workloads",
+            "Sampled schedules under oversubscription on all five back-ends; any shared mutable FFT state or leftover scratch content changes output bytes, which the differential sees regardless of the assembly.",
+            "Interleavings are sampled, not controlled; TSan sees only the C/C++ parts. A mismatch is reported even if a replay passes (it cannot occur without shared mutable state).",
+            "DESIGN.md §3 C06"),
 }
 
 ALL = ["C%02d" % k for k in range(1, 21)]
